@@ -516,8 +516,23 @@ def py_property(case, obs):
 
 
 MANIFEST = {
-    'level_text': 'placeholder',
-    'level_note': 'placeholder',
+    'level_text': 'Partial proof + exact correspondence. Proved in Coq (unbounded, axiom free): the closed forms '
+                  'ForLoopPT builds (ceiling count, Piecewise/Sum/Max, substituted start and final index) evaluate to '
+                  'the sum over / first / last element of the Python range for every range shape; the table '
+                  '_sequence_integral, constant and polynomial-function integrals equal the exact integral of the '
+                  'denoted pieces; integrals add over concatenation; pad_to denotes the pulse followed by a constant '
+                  'piece holding final_values.  ForLoopPT.final_values (floor division) is refuted and proved under '
+                  'the guard "step divides the span".  The assembly of these rules into one induction over all 13 '
+                  'template classes (mapping, multi-channel, parallel, arithmetic included) is NOT proved; those '
+                  'classes are covered by the correspondence check only: every generated template is evaluated on '
+                  'the real code (symbolic dictionaries exactly, the instantiated program integrated exactly leaf by '
+                  'leaf, padded program sampled) and compared inside Coq with the mirrored model and the denotation.',
+    'level_note': 'Trusted: Coq kernel, sympy evaluation of Sum/Max/ceiling/floor/Piecewise/subs/integrate (modelled '
+                  'semantically, validated per case), harness integrator and generators. Five known deviations of '
+                  'the unchanged code are listed as known findings (for-final-floor, initial-head-empty-or-jump, '
+                  'final-tail-empty, table-constant-detection, arith-over-parallel-order); three defects were '
+                  'repaired in /repo (empty-range integral, bare sympy integral of ArithmeticPT, time dependent '
+                  'ParallelChannelPT).',
     'technique': 'Coq proof over a hand-written model + exact correspondence check against the real instantiated pulse',
     'design_ref': 'DESIGN.md §5 C07',
 }
